@@ -157,6 +157,15 @@ def check_delivery(obs, need_liveness):
                 out.append(('intact', 'body-' + why, '%s popped %s: %d octets vs %d queued' % (dst, bid, len(data), len(bodies[bid]))))
             if bid not in seen:
                 out.append(('spurious', 'popped-unannounced', '%s popped %s that was never announced finished' % (dst, bid)))
+        # (c) the receive queue presents the waiting bundles in the order they arrived (which (a) ties to the order queued)
+        rank = {fin[4][0]: kix for (kix, fin) in enumerate(good)}
+        for call in har.calls:
+            if call[2] == dst and call[3] == 'recv_bundle_get_queue' and isinstance(call[5], list):
+                listed = [rank[str(bid)] for bid in call[5] if str(bid) in rank]
+                if listed != sorted(listed):
+                    out.append(('order', 'queue-listing-order', '%s lists its receive queue as %s, arrival order is %s' % (
+                        dst, [str(bid) for bid in call[5]], [fin[4][0] for fin in good if fin[4][0] in set(str(bid) for bid in call[5])])))
+                    break
         # (d) success only after receipt
         rx_seq = {fin[4][0]: fin[0] for fin in good}
         done = set()
